@@ -10,7 +10,7 @@ PROPERTY = "C13"
 LEVEL = "exploration"
 RULE = (
     "A case = a population of 2-7 instances drawn from {plain class, value-equal + hashable, value-equal without "
-    "__hash__, list subclass (receiver named 'me'), dict subclass (receiver named 'this'), subclass inheriting the "
+    "__hash__, expression-builder equality (== returns a truthy node), equality that raises on foreign operands, list subclass (receiver named 'me'), dict subclass (receiver named 'this'), subclass inheriting the "
     "method, subclass overriding it, class with a functools.wraps-decorated method, class with a property} with small "
     "keys so that equal-but-distinct receivers occur, 1-2 simultaneously active selectors from {Cls.meth > v, "
     "obj.meth > v, box.holder.obj.meth > v (dotted path), decorated method through class or object, property through "
@@ -61,6 +61,19 @@ class EqNoHash(Plain):
 class Sub(Plain):
     pass
 
+class EqExpr(Plain):
+    """expression-builder style equality: == returns a (truthy) node, whatever the operand"""
+    def __eq__(self, other):
+        return ("eq-node", self, other)
+    __hash__ = object.__hash__
+
+class EqSloppy(Plain):
+    """equality that assumes the other operand has the same attributes"""
+    def __eq__(self, other):
+        return self.k == other.k
+    def __hash__(self):
+        return hash(self.k)
+
 class Over(Plain):
     def meth(self, x):
         v = x * 1000 + self.k
@@ -99,7 +112,7 @@ def meth(x):
 class Box:
     pass
 '''
-KINDS = ["Plain", "Eq", "EqNoHash", "Sub", "Over", "L", "D", "Deco", "Prop"]
+KINDS = ["Plain", "Eq", "EqNoHash", "Sub", "Over", "L", "D", "Deco", "Prop", "EqExpr", "EqSloppy"]
 RECV = {"L": "me", "D": "this"}
 
 
@@ -124,7 +137,7 @@ def make_instance(ns, kind, k):
 
 def func_of(ns, kind):
     """The function object a call on an instance of `kind` executes."""
-    if kind in ("Plain", "Eq", "EqNoHash", "Sub"):
+    if kind in ("Plain", "Eq", "EqNoHash", "Sub", "EqExpr", "EqSloppy"):
         return ns["Plain"].__dict__["meth"]
     if kind == "Deco":
         return ns["Deco"].__dict__["meth"].__wrapped__
